@@ -202,7 +202,7 @@ where
                             if OSC_TERMINATORS.contains(&accu.as_str()) {
                                 break 'param_loop;
                             } else {
-                                param.push(accu.chars().next().unwrap());
+                                param.push_str(&accu);
                             }
                         }
 
@@ -326,7 +326,7 @@ where
                             if OSC_TERMINATORS.contains(&accu.as_str()) {
                                 break 'param_loop;
                             } else {
-                                param.push(accu.chars().next().unwrap());
+                                param.push_str(&accu);
                             }
                         }
 
